@@ -746,6 +746,14 @@ class Engine:
             if v.tup is not None and len(v.tup) == len(t.elts):
                 for tt, vv in zip(t.elts, v.tup):
                     self.assign(tt, vv, st)
+            elif v.py is not None and v.py[0] == "target_ret" and len(t.elts) == 2:
+                # (value, SD) pair returned by the k-th target call: the ghost sequences RetVal / RetSD
+                from contracts import models
+                k1 = v.py[1]
+                a0, a1 = Val.fresh("tret_val"), Val.fresh("tret_sd")
+                a0.lazy, a1.lazy = N(models.retval(k1)), N(models.retsd(k1))
+                self.assign(t.elts[0], a0, st)
+                self.assign(t.elts[1], a1, st)
             else:
                 a = v.get_arr()
                 for i, tt in enumerate(t.elts):
